@@ -313,6 +313,18 @@ func vrBuild(t int) vrCase {
 		}
 		return vrCase{code: code, faulty: true, what: fmt.Sprintf("container-mismatch kind%d via%d", kind, via), culprit: offending}
 	}
+	if t == 27 { // a loop without break never terminates (type never), whatever diverging expressions precede it elsewhere
+		before, inner, brk := nd("before", 0, 3), nd("inner", 0, 2), nd("hasBreak", 0, 1)
+		pre := []string{"", "fn a() { throw(\"x\"); }\n", "fn a() { loop { break; } }\n", "fn a() -> int { if 1 < 2 { return 1; } throw(\"y\") }\n"}[before]
+		first := []string{"", "    if 2 < 1 { throw(\"z\"); }\n", "    for k in 0..1 { if k == 0 { continue; } }\n"}[inner]
+		body := "  loop {\n" + first + "    return 1;\n  }\n"
+		if brk == 1 {
+			body = "  loop {\n" + first + "    if 1 < 2 { break; }\n    return 1;\n  }\n"
+		}
+		code := pre + "fn b() -> int {\n" + body + "}\n" + vrMain("  println(b());\n")
+		// with a break the loop can be left and the function body then yields null where int is required
+		return vrCase{code, brk == 1, fmt.Sprintf("loop-never-terminates before=%d inner=%d break=%d", before, inner, brk), ""}
+	}
 	return vrCase{vrMain("  println(1);\n"), false, "trivial", ""}
 }
 
@@ -330,7 +342,7 @@ func vsReplaceArg(tmpl, arg string) string {
 	return out
 }
 
-const vrTemplates = 27
+const vrTemplates = 28
 
 func VerifHarness_Rules() {
 	t := errors.VerifNdIntRange("template", 0, vrTemplates-1)
